@@ -400,6 +400,88 @@ def r17_5(rep, M, rid):
     rep.ok(rid, "every self.<attr> read by classify / cross_validate_region is initialised in __init__ or earlier in the same call")
 
 
+# ----------------------------------------------------------------------------- configuration is never mutated in place
+def config_mutation(rep, M, rid):
+    from ..effects import PASS_THROUGH_EXT, MUTATORS
+    init = M.func(CLS + ".__init__")
+    cfg = {t.attr for s2 in ast.walk(init) if isinstance(s2, ast.Assign) for t in s2.targets
+           if isinstance(t, ast.Attribute) and isinstance(t.value, ast.Name) and t.value.id == "self"}
+    written_in_call = set()
+    for fq in (FQ, CLS + ".cross_validate_region"):
+        for s2 in ast.walk(M.func(fq)):
+            if isinstance(s2, ast.Assign):
+                for t in s2.targets:
+                    if isinstance(t, ast.Attribute) and isinstance(t.value, ast.Name) and t.value.id == "self":
+                        written_in_call.add(t.attr)
+    pure_cfg = cfg - written_in_call
+    n = 0
+    for fq in (FQ, CLS + ".cross_validate_region"):
+        fn = M.func(fq)
+        fl = Flow(fn)
+        attr_alias = {}       # self.<attr> written in this call -> config attrs it may alias (flow-insensitive)
+
+        def al(e, at, depth=0):
+            if depth > 6:
+                return set()
+            if isinstance(e, ast.Attribute) and isinstance(e.value, ast.Name) and e.value.id == "self":
+                if e.attr in pure_cfg:
+                    return {e.attr}
+                return set(attr_alias.get(e.attr, ()))
+            if isinstance(e, ast.Name):
+                out = set()
+                for d in fl.rd[at].get(e.id, ()):
+                    if d == fl.cfg.entry:
+                        continue
+                    for kind, *rest in fl.def_value(d, e.id):
+                        if kind == "expr":
+                            out |= al(rest[0], d, depth + 1)
+                return out
+            if isinstance(e, ast.Subscript):
+                return al(e.value, at, depth + 1)
+            if isinstance(e, ast.IfExp):
+                return al(e.body, at, depth + 1) | al(e.orelse, at, depth + 1)
+            if isinstance(e, ast.Call) and e.args and M.ext_name(fq, e.func) in PASS_THROUGH_EXT:
+                return al(e.args[0], at, depth + 1)
+            return set()
+        for _ in range(3):
+            for nid, d in fl.cfg.g.nodes(data=True):
+                s2 = d["ast"]
+                if isinstance(s2, ast.Assign):
+                    for t in s2.targets:
+                        if isinstance(t, ast.Attribute) and isinstance(t.value, ast.Name) and t.value.id == "self":
+                            attr_alias.setdefault(t.attr, set()).update(al(s2.value, nid))
+        for nid, d in fl.cfg.g.nodes(data=True):
+            s2 = d["ast"]
+            if s2 is None:
+                continue
+            hits = []
+            if isinstance(s2, ast.AugAssign):
+                tgt = s2.target
+                a = al(tgt.value, nid) if isinstance(tgt, ast.Subscript) else al(tgt, nid)
+                if a:
+                    hits.append((a, s2))
+            elif isinstance(s2, ast.Assign):
+                for t in s2.targets:
+                    if isinstance(t, ast.Subscript) and al(t.value, nid):
+                        hits.append((al(t.value, nid), s2))
+            for x in walk_own(s2):
+                if isinstance(x, ast.Call) and isinstance(x.func, ast.Attribute) and x.func.attr in MUTATORS and not M.callees_of_call(fq, x):
+                    a = al(x.func.value, nid)
+                    if a:
+                        hits.append((a, x))
+                if isinstance(x, ast.Call):
+                    for k2 in x.keywords:
+                        if k2.arg == "out" and al(k2.value, nid):
+                            hits.append((al(k2.value, nid), x))
+            for a, node in hits:
+                n += 1
+                rep.violation(rid, f"{fq.split('.')[-1]}: `{norm(node)[:60]}`", f"modifies in place an object that may be the classifier's configuration "
+                              f"self.{sorted(a)[0]} (set in __init__, possibly the caller's own array): every call changes the thresholds of the "
+                              "next one, so repeated calls give different classes", M.where(fq, node))
+    if not n:
+        rep.ok(rid, f"classify never modifies its configuration ({len(pure_cfg)} attributes) in place")
+
+
 # ----------------------------------------------------------------------------- R17.6 radii agreement
 def r17_6(rep, M, rid):
     fn = M.func(FQ)
@@ -422,6 +504,14 @@ def r17_6(rep, M, rid):
                           M.where(FQ, dm[0]))
     else:
         rep.ok(rid, "classify: dimensionality computes its own matrix")
+    if mat is not None:
+        good_field = isinstance(mat, ast.Attribute) and mat.attr == "dist_matrix_radii_mic"
+        if good_field:
+            rep.ok(rid, "classify: the precomputed matrix handed to get_dimensionality is the radii-corrected one")
+        else:
+            rep.violation(rid, "classify: precomputed matrix", f"`{norm(mat)}` is passed as `dist_matrix_radii_mic_1x`: get_dimensionality expects "
+                          "minimum-image distances with the radii already subtracted; raw distances make bonded structures with long bonds "
+                          "look disconnected (Unknown)", M.where(FQ, dm[0]))
     thr = b2.get("cluster_threshold")
     if thr is not None and norm(thr) == "self.cluster_threshold":
         rep.ok(rid, "classify: cluster_threshold forwarded")
@@ -458,7 +548,7 @@ def run(rep, ctx):
     rep.rule("R17.6", "matrix and dimensionality use the same radii; thresholds are forwarded")
     for rid, f in (("R17.1", lambda: r17_1(rep, M, "R17.1")), ("R17.2", lambda: r17_2(rep, M, "R17.2")),
                    ("R17.3", lambda: r17_3(rep, M, "R17.3")), ("R17.4", lambda: r17_4(rep, M, E, "R17.4")),
-                   ("R17.5", lambda: r17_5(rep, M, "R17.5")), ("R17.6", lambda: r17_6(rep, M, "R17.6"))):
+                   ("R17.5", lambda: (r17_5(rep, M, "R17.5"), config_mutation(rep, M, "R17.5"))), ("R17.6", lambda: r17_6(rep, M, "R17.6"))):
         with rep.guard(rid):
             f()
     rep.floor("R17.1", 7)
